@@ -17,3 +17,5 @@ def check(ctx: Ctx) -> None:
     CT.r_total_indexing(ctx, "R16.7")
     # every parameter of a member (but the receiver) is an argument of its command: the omitted-parameter default names 'self' and nothing else
     CT.r_omitted_params(ctx, "R16.8")
+    # "a command named after it": the word the client typed is the word that is looked up (no case folding, no rewriting)
+    CT.r_tokens(ctx, "R16.9")
